@@ -52,7 +52,7 @@ def programs(tier, seed):
 
 
 def dump(progs):
-    jobs = [{'id': i, 'sources': p['sources'], 'entry': p['entry'], 'passes': CHAIN} for i, p in enumerate(progs)]
+    jobs = [{'id': i, 'sources': p['sources'], 'entry': p['entry'], 'passes': CHAIN, 'fragment': 2} for i, p in enumerate(progs)]
     chunks = [jobs[i::NCPU] for i in range(NCPU)]
 
     def run_chunk(c):
@@ -201,6 +201,13 @@ class LoopGen:
                              [['bin', qc, 'GE', ['v', q], ['i', 3]], ['sif', ['v', qc], False, [['brk', ['v', q]]]],
                               ['bin', qs, 'PLUS', ['v', q], ['i', 1]]], qb])
                 ints.append(qb)
+            elif k < 96:
+                # struct allocation (hoisted when all fields are invariant) and a field load from it
+                fields = [inv_operand() if r.chance(1, 2) else ['v', r.pick(ints)] for _ in range(r.range(1, 3))]
+                rest.append(['struct', x, r.below(3), fields])
+                y = self.fresh()
+                rest.append(['prim', y, 'idx', 0, r.below(len(fields)), ['v', x]])
+                ints.append(y)
             else:
                 rest.append(['not', x, ['v', cc]]) if self.hostile else rest.append(['prim', x, 'idx', r.below(2), r.below(2), ['v', r.pick(ints)]])
                 ints.append(x)
@@ -220,7 +227,7 @@ class LoopGen:
                 lv[2] = ['v', c]
                 ints.append(c)
         body += rest
-        defined_top = [s[1] for s in rest if s[0] in ('bin', 'not', 'prim')] + [s[3] for s in rest if s[0] == 'call' and s[3] is not None] \
+        defined_top = [s[1] for s in rest if s[0] in ('bin', 'not', 'prim', 'struct')] + [s[3] for s in rest if s[0] == 'call' and s[3] is not None] \
             + [s[4][0][0] for s in rest if s[0] == 'if'] + [s[3] for s in rest if s[0] == 'while' and s[3] is not None]
         for lv in lvs:
             if lv[2] is None:
@@ -240,12 +247,51 @@ class LoopGen:
         return {'params': params, 'body': pre + [loop] + post, 'ret': ret}
 
 
+def counting_loop(r):
+    """A counting loop with literal initial value, stride and bound (what loop_algebraic_optimization turns into a
+    closed form), every guard kind and polarity, strides of either sign and 0, bounds around the initial value and
+    near the ends of the range, optional further induction variables with literal / parameter strides, every kind
+    of break value."""
+    n = [0]
+
+    def fresh():
+        n[0] += 1
+        return n[0]
+    params = [fresh() for _ in range(r.range(0, 2))]
+    i, cc, coll = fresh(), fresh(), fresh()
+    big = r.chance(1, 6)
+    i0 = r.pick([MAX32 - 5, MIN32 + 3, MAX32, MIN32]) if big else r.range(-12, 12)
+    stride = r.pick([1, 1, 2, 3, 7, -1, -2, -5, 0, 1 << 30, -(1 << 30)]) if not big else r.pick([1, -1, 2, -3, 1 << 30])
+    bound = (i0 + r.pick([-20, -3, -1, 0, 1, 2, 9, 10, 33]) if not big else r.pick([MAX32, MIN32, MAX32 - 1, MIN32 + 1, 0]))
+    bound = max(MIN32, min(MAX32, bound))
+    lvs = [[i, ['i', i0], ['v', coll]]]
+    tail = [['bin', coll, 'PLUS', ['v', i], ['i', stride]]]
+    gens = []
+    for _ in range(r.pick([0, 1, 1, 2])):
+        j, jc = fresh(), fresh()
+        init = ['v', r.pick(params)] if params and r.chance(1, 3) else ['i', r.range(-5, 50)]
+        inc = ['v', r.pick(params)] if params and r.chance(1, 4) else ['i', r.pick([1, 2, -3, 7, 0, 1 << 29])]
+        lvs.append([j, init, ['v', jc]])
+        tail.append(['bin', jc, 'PLUS', ['v', j], inc])
+        gens.append(j)
+    lvs = r.shuffle(lvs)
+    tail = r.shuffle(tail)
+    bv = r.pick([['v', i], ['v', i]] + [['v', g] for g in gens] + [['v', p] for p in params] + [['i', r.range(-3, 9)]])
+    body = [['bin', cc, r.pick(['LT', 'LE', 'GT', 'GE']), ['v', i], ['i', bound]],
+            ['sif', ['v', cc], r.chance(1, 2), [['brk', bv]]]] + tail
+    bc = fresh() if r.chance(5, 6) else None
+    ret = ['v', bc] if bc is not None else ['i', 0]
+    return {'params': params, 'body': [['while', lvs, body, bc]], 'ret': ret}
+
+
 def synthetic(tier, seed):
     rng = Rng(seed ^ 0x5100B)
     n = 500 if tier == 'quick' else 5000
     fs = [LoopGen(rng.fork()).function() for _ in range(n)]
     rng2 = Rng(seed ^ 0x40571E)
-    return fs + [LoopGen(rng2.fork(), hostile=True).function() for _ in range(n // 5)]
+    fs += [LoopGen(rng2.fork(), hostile=True).function() for _ in range(n // 5)]
+    rng3 = Rng(seed ^ 0xC0047)
+    return fs + [counting_loop(rng3.fork()) for _ in range(n // 2)]
 
 
 # the MIR-level witnesses of the refuted theorems (Props.v), replayed on the real pass
